@@ -3,10 +3,11 @@
 # seeded/<id>/meta.json (detected_by) and .work/matrix.txt. Each change is applied in a scratch worktree of /repo (REPO=<worktree>).
 cd "$(dirname "$0")/.."
 mkdir -p .work
-[ -z "$START" ] && : > .work/matrix.txt     # START=C07-m1 resumes an interrupted run
+[ -z "$START$ONLY" ] && : > .work/matrix.txt     # START=C07-m1 resumes an interrupted run
 for d in seeded/C*-m*; do
   id=$(basename "$d"); pid=${id%%-*}
   [ -n "$START" ] && [[ "$id" < "$START" ]] && continue
+  [ -n "$ONLY" ] && [[ ! "$id" =~ $ONLY ]] && continue     # ONLY='m[78]$' re-runs a subset
   out=$(bash tools/try_mutant_wt.sh "$d/patch.diff" "$pid" quick 2>&1)
   rc=$(echo "$out" | grep -o 'rc=[0-9]*' | tail -1)
   viol=$(echo "$out" | grep -m1 '^VIOLATION' )
